@@ -170,6 +170,13 @@ NBS = (2, 3)             # samples returned by the smoother: as many as widths (
 WS = [sp.Symbol(f"w_{i}", positive=True) for i in range(NW)]
 
 
+def set_instance(nw, npt, nbs):
+    """size of the symbolic instance the fit rules are decided on (thorough adds a second, larger one)"""
+    global NW, NPT, NBS, WS
+    NW, NPT, NBS = nw, npt, nbs
+    WS = [sp.Symbol(f"w_{i}", positive=True) for i in range(NW)]
+
+
 def _syms_in(t):
     out = []
     for x in (t.subterms() if isinstance(t, Term) else []):
@@ -362,7 +369,7 @@ def _check_call(ctx, fi, cp, P, L):
         if not _zero(got - want):
             bad = f"objective({', '.join(map(str, X))}) = {sp.factor(got)}; required sum over the {NPT} pressures of (sum_w k_w(P_p)*x_w - L_p)^2 " \
                   "(k_w: interpolator of kernel column w at the fitted pressures)"
-    ctx.ob(not bad, Finding("C18.K-objective", fi.where, "objective", f"objective term: {bad}"), nontrivial_key=("objective",))
+    ctx.ob(not bad, Finding("C18.K-objective", fi.where, "objective", f"objective term: {bad}"), nontrivial_key=("objective", NW, NPT))
 
 
 def _check_report(ctx, fi, val, cp, b, P, ORDER, dl, NB):
@@ -378,7 +385,7 @@ def _check_report(ctx, fi, val, cp, b, P, ORDER, dl, NB):
     okf = eq_arrays(fitted, numpy.array(_kl(P, RX), dtype=object))
     ctx.ob(okf, Finding("C18.K-report", fi.where, "fitted-loading",
                         f"reported fitted isotherm {fitted!r} is not kernel_loading(result.x) = sum_w k_w(P_p)*x_w of the result that yields the distribution"),
-           nontrivial_key=("fitted",))
+           nontrivial_key=("fitted", NW, NPT))
     calls = b.get("calls") or []
     if len(calls) != 1:
         ctx.ob(False, Finding("C18.K-report", fi.where, "no-smoothing-call", f"bspline is called {len(calls)} times with the distribution; exactly once required"))
@@ -392,7 +399,7 @@ def _check_report(ctx, fi, val, cp, b, P, ORDER, dl, NB):
     okd = eq_arrays(ys, want_d) and deg == ORDER and (n_ is None or _is_int(n_, 100)) and per in (None, False)
     ctx.ob(okd, Finding("C18.K-report", fi.where, "distribution",
                         f"distribution handed to the smoother is {ys!r} (degree {deg!r}); required result.x / ediff1d(widths, to_begin=widths[0]) "
-                        "with the caller's spline order"), nontrivial_key=("dist",))
+                        "with the caller's spline order"), nontrivial_key=("dist", NW))
     bw, bd = sym_array("bw", NB), sym_array("bd", NB, real=True)
     ok_out = eq_arrays(w_out, bw) and eq_arrays(d_out, bd)
     ctx.ob(ok_out, Finding("C18.K-report", fi.where, "returned-arrays", f"returned widths / distribution are {w_out!r} / {d_out!r}, not the smoother's outputs"),
@@ -699,8 +706,13 @@ def run(ctx: Ctx):
     ctx.assume("scipy.optimize.minimize: result.x respects the bounds for bound-honouring methods, result.success is truthful; "
                "scipy.interpolate.interp1d raises ValueError outside its table unless bounds_error=False / fill_value is given; "
                "scipy.interpolate.splev with control points c lies in their convex hull")
-    r_fit(ctx, model)
-    r_load(ctx, model)
+    sizes = [(2, 3, (2, 3))] + ([(3, 4, (3, 5))] if ctx.tier == "thorough" else [])
+    for nw, npt, nbs in sizes:
+        set_instance(nw, npt, nbs)
+        r_fit(ctx, model)
+        r_load(ctx, model)
+    set_instance(2, 3, (2, 3))
+    ctx.analysed["symbolic instances (widths, pressures, smoother output lengths)"] = [list(map(str, s_)) for s_ in sizes]
     r_limits(ctx, model)
     r_path(ctx, model)
     r_spline(ctx, model)
